@@ -121,7 +121,9 @@ def build_model(log):
             return True, ""
         t = time.time()
         sh([os.path.join(VERIF, "tools", "mkcoq.sh")])
-        rc, out = sh(["make", "-C", COQ, "-j", str(NCPU), "Extract/Extract.vo"], timeout=1500)
+        # Extract/Extract.v is compiled by ocaml/build.sh; everything it imports must be there (a thorough run starts from make clean)
+        vos = [os.path.relpath(s, COQ)[:-2] + ".vo" for s in srcs if s.endswith(".v") and os.sep + "Extract" + os.sep not in s]
+        rc, out = sh(["make", "-C", COQ, "-j", str(NCPU)] + sorted(vos), timeout=1500)
         if rc != 0:
             return False, out
         rc, out = sh([os.path.join(VERIF, "ocaml", "build.sh")], timeout=900)
